@@ -36,22 +36,27 @@ structure Cfg where
   ucSigBits : Nat
   /-- size of a Specifier -/
   specLen : Nat
+  /-- `parseUnlockKey` lifts a leading quoted string off the input with
+      `strconv.QuotedPrefix` before tokenizing (generated fact `ukQuotedPrefix`;
+      `false` = the parser as first found, finding F3) -/
+  quotedKeys : Bool
   /-- `unicode.IsPrint` above U+00FF (see Quote.lean) -/
   hi : Nat → Bool
 
-/-- the parser configuration with a given signature-count bit size, everything else
-    as read from the source -/
-def goCfgWith (sigBits : Nat) (hi : Nat → Bool) : Cfg :=
+/-- the parser configuration with a given signature-count bit size and a given
+    treatment of quoted key specifiers, everything else as read from the source -/
+def goCfgWith (sigBits : Nat) (quotedKeys : Bool) (hi : Nat → Bool) : Cfg :=
   { delims := Gen.FactsText.tokenDelimsBytes
     aboveBits := Gen.FactsText.aboveBits
     threshBits := Gen.FactsText.threshBits
     ucTimelockBits := Gen.FactsText.ucTimelockBits
     ucSigBits := sigBits
     specLen := 16
+    quotedKeys := quotedKeys
     hi := hi }
 
 /-- the configuration of the code as it is now -/
-def goCfg (hi : Nat → Bool) : Cfg := goCfgWith Gen.FactsText.ucSigBits hi
+def goCfg (hi : Nat → Bool) : Cfg := goCfgWith Gen.FactsText.ucSigBits Gen.FactsText.ukQuotedPrefix hi
 
 /-! ## printer -/
 
@@ -149,10 +154,33 @@ def parseHexTok (cfg : Cfg) (st : St) : List UInt8 × St :=
       | none => ([], { st with err := true })
     | _ => ([], { st with err := true })
 
+/-- `strconv.QuotedPrefix` of a text starting with '"': the shortest prefix that is a
+    valid double-quoted Go string literal, and what follows it.  (The library scans with
+    the same `UnquoteChar` loop as `Unquote`; its fast path for escape-free valid UTF-8
+    ends at the same closing quote.) -/
+def quotedPrefix (s : Txt) : Option (Txt × Txt) :=
+  match s with
+  | 34 :: rest =>
+    match unquoteLoop (rest.length + 1) rest [] with
+    | some (_, tail) => some (s.take (s.length - tail.length), tail)
+    | none => none
+  | _ => none
+
+/-- the closure `parseUnlockKey`.  With `cfg.quotedKeys`: `s = TrimSpace(s)`; if no error
+    yet and `s` starts with '"' and has a quoted prefix, that prefix is removed from `s`
+    and prepended to the next token.  Without: just the next token. -/
 def parseKeyTok (cfg : Cfg) (st : St) : UnlockKey × St :=
+  let (quoted, st) : Txt × St :=
+    if cfg.quotedKeys then
+      let s := trimSpace st.s
+      if st.err then ([], { st with s := s })
+      else match quotedPrefix s with
+        | some (q, r) => (q, { st with s := r })
+        | none => ([], { st with s := s })
+    else ([], st)
   let (t, st) := nextToken cfg st
   if st.err then (⟨[], []⟩, st)
-  else match parseUk cfg.specLen t with
+  else match parseUk cfg.specLen (quoted ++ t) with
     | some uk => (uk, st)
     | none => (⟨[], []⟩, { st with err := true })
 
